@@ -27,7 +27,8 @@ CLAIMS = {
                 'values written), that no path writes and then answers an exception, that unknown codes yield exception 01 that every front-end maps a datastore exception to 04, and that the block validate() predicates behind the range guard accept a range iff every addressed cell exists. Boundary sweeps over concrete stores are not run.'
                 ' The server decoder owns its tables (a function registered on another server is still answered with 01).'
                 " doException() builds the exception answer from the request's own function code and ids; the RTU length oracle sizes every request up to the 256-byte ADU limit (shared with C03)."
-                ' A normal answer is given only on paths that passed validate() for the addressed range.',
+                ' A normal answer is given only on paths that passed validate() for the addressed range.'
+                ' IllegalFunctionRequest is built from the received function code; reset() of a block does not move the window validate() tests.',
         'note': 'Attribute<->wire binding of guarded fields is decided by C01/C02; block range arithmetic by C18. Three genuine '
                 'defects (FC5 value word, FC15 quantity) are listed in known_findings.jsonl.',
         'technique': 'guard/dominance analysis over enumerated paths, interval + affine normal forms (static)',
@@ -40,7 +41,8 @@ CLAIMS = {
                 'per-connection framer creation, processIncomingPacket call signatures, no deferred scheduling on the response path, and (datagram front-ends) the destination of every reply traced back to the source address of the datagram that carried this request, one datagram per framer call, coherent framer state between calls, and decoder.register() keeping the built-in sub-function dispatch.'
                 ' The asyncio handler is constructed with, and bound to, the server that accepted the connection; the server keeps the context object it was given.'
                 ' The threaded front-end asks the socket for at least one whole ADU per read; the RTU length oracle sizes maximum-size requests.'
-                ' No framer decision is taken on the chunk just received (shared with C06 R5).',
+                ' No framer decision is taken on the chunk just received (shared with C06 R5).'
+                ' The exception response to an unserviceable request carries the received function code; a one-frame-per-call framer keeps nothing behind a skipped frame.',
         'note': 'request.execute may raise any Exception, context lookup NoSuchSlaveException; other statements non-raising. '
                 'Byte-exact output streams over request histories are not decided.',
         'technique': 'per-path effect counting over interprocedural path enumeration + who-may-call + signature conformance (static)',
@@ -50,7 +52,8 @@ CLAIMS = {
                 'context[request.unit_id], that the broadcast branch (iff broadcast_enable and unit 0) iterates context.slaves() and executes in every iteration, once each, without sending, the gateway exception / silence for absent units, that every receive loop passes '
                 'context.slaves()/context.single and admits unit 0 under broadcast and only then, the server-context routing/id interval, that contexts do not share default blocks, and that no truthiness test can replace the context handed to a server by a default one.'
                 ' The asyncio handler is bound per instance to the server that created it; contexts and blocks own their tables per instance.'
-                " slaves() lists every hosted unit on every return path; doException() keeps the request's unit and transaction ids.",
+                " slaves() lists every hosted unit on every return path; doException() keeps the request's unit and transaction ids."
+                " header['uid'] is parsed from the same version of the receive buffer as the bytes handed to the decoder.",
         'note': 'Non-interference between unit datastores at run time follows from these routing facts plus C05 R2; it is not itself decided.',
         'technique': 'decision-table enumeration + path routing analysis + sibling agreement (static)',
     },
@@ -61,7 +64,8 @@ CLAIMS = {
                 'class-level mutable state and every connection owns its framer; a framer path that delivers a message without a successful checkFrame is accepted only when restricted to function codes >= 0x80 (they decode to a request that touches no datastore); decode() of every write request reads exactly the declared fields; a framer shared by all peers of a datagram endpoint keeps nothing of an undelivered datagram (with an inductively proved entry invariant of the socket framer). Thorough tier cross-checks the Twisted reactor '
                 'containment assumption against the installed Twisted sources.'
                 ' Cursor loops of the request decoders advance on every path back to the loop test (no request can spin a server thread / event loop); decoder and framer state is per instance; asyncio handlers are bound to their server.'
-                ' The threaded front-end reads at least a whole ADU per call; hexlify_packets and the __str__ of the library exceptions are total (no TypeError is raised inside an except branch of a serving loop).',
+                ' The threaded front-end reads at least a whole ADU per call; hexlify_packets and the __str__ of the library exceptions are total (no TypeError is raised inside an except branch of a serving loop).'
+                ' A one-frame-per-call framer keeps nothing behind a frame it skips (no request is executed a read late).',
         'note': 'Statements other than the framer call / transport read are treated as non-raising; Twisted containment is an assumption in the quick tier.',
         'technique': 'exception-flow analysis over enumerated paths + call-graph who-may-call (static)',
     },
@@ -71,7 +75,8 @@ CLAIMS = {
                 'key, should_respond gate, payload source or framer-call arguments is reported. Datagram front-ends hand the framer one datagram per call. Stream receive loops must not reset the framer on an iteration without a fault, for every reachable state of their loop-carried flags (fixpoint over the loop body). Broadcast rows are exempt (C10).'
                 ' The asyncio handler reads its server from an instance attribute bound by every constructor path to the server that created it.'
                 " The threaded front-end's read size covers an ADU like the other front-ends; a response class declared should_respond = False stays unsendable on every constructor path."
-                ' No front-end stores anything derived from received traffic in its own attributes outside connection set-up.',
+                ' No front-end stores anything derived from received traffic in its own attributes outside connection set-up.'
+                ' After a framer exception every connection-oriented front-end ends the connection as the reference does.',
         'note': 'Decides agreement of the code summaries, not byte-identical outputs over histories or interleavings.',
         'technique': 'cross-checking sibling implementations via path summaries (static)',
     },
@@ -82,7 +87,8 @@ CLAIMS = {
                 'or delivered afterwards; header truthiness after construction equals that after reset when code branches on it; sizing errors on partial data cannot escape; plus coherence of the state carried between calls (a cached header is reset whenever bytes are dropped from the front of the buffer, addToFrame only appends, no branch looks at the chunk just received). Eight genuine defects of the pinned tree are listed as known findings.'
                 ' A header field that holds a slice of the receive buffer is taken in the call that reads it; framers own their header per instance.'
                 ' hexlify_packets (evaluated on every reset / processing path) is total on byte strings; the RTU length oracle is a function of the frame bytes only.'
-                ' After a frame for a foreign unit was skipped the frame loop goes on to the frames behind it.',
+                ' After a frame for a foreign unit was skipped the frame loop goes on to the frames behind it.'
+                ' A framer that handles one frame per call leaves nothing buffered behind a frame it skips.',
         'note': 'Only explicit length / delimiter tests classify as data absence. Equality of delivered sequences over all chunkings is not decided.',
         'technique': 'interprocedural path enumeration with effect classification (buffer shrink / delivery / raise) (static)',
     },
@@ -102,7 +108,8 @@ CLAIMS = {
                 'frame and when garbage precedes a start delimiter the buffer shrinks before the call returns; receive loops reset the framer or end the connection after a framer exception; the garbage skip cuts at the first start delimiter; state carried between calls stays coherent (cached header reset on every front drop, addToFrame only appends). Liveness over all futures and the two-frame bound are not decided.'
                 ' The serial client drains stale input before every request on every framing (shared with C13).'
                 ' Every class lookupPduClass can return has a frame size the RTU oracle can compute (no exception other than the caught IndexError leaves it); hexlify_packets is total, so resetFrame() always clears the buffer.'
-                ' The readiness test that gates the garbage skip of the delimiter framers is monotone under appending bytes.',
+                ' The readiness test that gates the garbage skip of the delimiter framers is monotone under appending bytes.'
+                ' resetFrame() of every framer leaves the receive buffer empty on every path.',
         'note': 'Necessary conditions only; RTU in-stream resynchronisation is not decided.',
         'technique': 'path enumeration + effect-after-event rules (static)',
     },
@@ -112,7 +119,8 @@ CLAIMS = {
                 'with the request, that the unit filter is request.unit_id, that the framed bytes are those received in this call, '
                 'that no reachable fallback fetches under a foreign key, that a fresh id is allocated and stale framer bytes are cleared before transmitting; a TCP read of unknown size ends only on its deadline; a first read that is not exactly min_size long raises (so the connection is closed); the bytes sent are buildPacket(request) of the same call; the TCP read returns only bytes received in that call. Two genuine defects are listed as known findings.'
                 ' ClientDecoder.decode contains whatever the reply codecs raise; client decoder tables and manager bookkeeping are per instance.'
-                ' An exchange that ended in a transport fault leaves no open connection behind (shared with C13); decode() of the response classes reads the spec layout (shared with C01; two known findings mirrored).',
+                ' An exchange that ended in a transport fault leaves no open connection behind (shared with C13); decode() of the response classes reads the spec layout (shared with C01; two known findings mirrored).'
+                " header[len] of the delimiter framers is the position of the reply's own (first) end delimiter (shared with C03).",
         'note': 'Structural necessary conditions; reply contents and connection histories are not explored.',
         'technique': 'key-provenance / must-compare rule over region-scoped path enumeration (static)',
     },
@@ -123,7 +131,8 @@ CLAIMS = {
                 '(what can escape a client call), the clean-exit state / close-on-fault discipline, that the serial client drains stale input before every write for every framing, that a short or empty first read raises, and that the time budget of the client polling loops is fixed before the loop, that every iteration of the RTU send wait loop sets the awaited state or waits on the deadline, and that no transport method closes the socket on a normally returning path.'
                 ' ClientDecoder.decode contains every codec exception; cursor loops of the response decoders advance on every path; manager bookkeeping is per instance.'
                 ' A read of unknown length asks for at least one whole ADU; hexlify_packets and exception texts are total; what an earlier exchange left in the framer is dropped before the next request (shared with C08).'
-                ' client.connect() precedes the transmission inside every attempt (the fault handler of the previous attempt closed the transport).',
+                ' client.connect() precedes the transmission inside every attempt (the fault handler of the previous attempt closed the transport).'
+                ' A cached header is reset whenever bytes are dropped from the front of the buffer (shared with C06 R6).',
         'note': 'Wall-clock bounds of blocking transport calls and the correctness of a following transaction are not decided. '
                 'Six genuine defects are listed as known findings.',
         'technique': 'loop-variant extraction + decision-table enumeration + interprocedural exception-flow summaries (static)',
@@ -133,7 +142,8 @@ CLAIMS = {
                 'with a call or a store lies inside the region, transaction-manager methods touching the client are reachable only '
                 'from the region, the public request API touches no transport method outside it, no second lock / wait / release '
                 'inside the region.'
-                ' The state the lock protects belongs to the manager instance.',
+                ' The state the lock protects belongs to the manager instance.'
+                ' connect() precedes the transmission inside the locked region on every attempt (shared with C13 R20).',
         'note': 'GIL atomicity of single statements assumed; interleavings are not explored. One genuine defect (connect() before the lock) is a known finding.',
         'technique': 'lock-scope / who-may-call analysis over AST and class-level call graph (static)',
     },
@@ -166,7 +176,8 @@ CLAIMS = {
                 'reader summary of every decode() (offset, width, target attribute, loop start/stride/iteration count) is compared '
                 'with the same table; dispatch dataflow of both _helper functions, including that a sub-function / MEI-type class looked up in a table is tested against None and not for truthiness (sub-function 0 is valid). Message constructors must not store a mutable default argument and must keep a 0 argument of an integer field; decoder.register() must not replace an existing sub-function table; the bit-list helpers are undecorated and return freshly built lists. Five genuine defects are known findings.'
                 ' Decoder tables are owned by the decoder instance (register() on one decoder cannot change another).'
-                ' No decoder path refuses a PDU for its length alone: length guards ahead of the function-table lookup are evaluated for every legal length 1..253.',
+                ' No decoder path refuses a PDU for its length alone: length guards ahead of the function-table lookup are evaluated for every legal length 1..253.'
+                ' No registered message class (nor a package base) defines __len__ / __bool__ while the decoders test the fresh instance for truth; IllegalFunctionRequest is always built from the received function code.',
         'note': 'pack_bitstring/unpack_bitstring arithmetic and struct are trusted; value ranges are not decided. The MEI object list is decided by C20.',
         'technique': 'abstract interpretation to wire-layout summaries compared with frozen spec tables; constant folding of decoder tables (static)',
     },
@@ -175,7 +186,8 @@ CLAIMS = {
                 'of the spec table), purity of encode (no attribute modified in place without a reset in the same call), decode not '
                 'accumulating, and losslessness of re-classing by sub-function code (no constructor-only state read after the swap; the dispatch is reached for every sub-function code, 0 included), a leading field that decode stores in an attribute is encoded from the message and not from a constant, no constructor stores a mutable default argument, and decoder.register() keeps the existing sub-function tables.'
                 ' Decoder tables are owned by the decoder instance, so registering a class elsewhere cannot change what a round trip returns.'
-                ' The MEI object list is read as it is written (verdict of C20 R3 imported).',
+                ' The MEI object list is read as it is written (verdict of C20 R3 imported).'
+                ' The same truthiness condition holds for round trips through the decoders.',
         'note': 'struct trusted for value equality. Five genuine defects are known findings (four asymmetric pairs, one accumulation pinned by a test).',
         'technique': 'writer/reader layout-summary comparison + reaching-definition style purity rule (static)',
     },
@@ -196,7 +208,8 @@ CLAIMS = {
                 'with the number of reply words per sub-function (Modbus-Plus statistics table const-folded); the per-framer overhead, '
                 'exception length, min_size and function-code peek tables are compared with the buildPacket layout summaries; the no-response bookkeeping that selects the read-everything mode lists a unit exactly on an empty reply and releases it on any non-empty one.'
                 ' The list of silent units belongs to one transaction manager.'
-                ' The size _recv computed is the size passed to the transport read on every path of the synchronous clients.',
+                ' The size _recv computed is the size passed to the transport read on every path of the synchronous clients.'
+                ' On the exception-reply path the second read asks for _calculate_exception_length() - min_size bytes.',
         'note': 'Assumes getValues(fc, a, n) returns n values; binary overhead exact only without delimiter escaping. Two known findings (Modbus Plus predictions).',
         'technique': 'affine comparison of prediction functions with layout-summary lengths (static)',
     },
@@ -206,7 +219,8 @@ CLAIMS = {
                 'charged, and the length byte carries, the length of the very payload that is emitted; the progress condition (largest '
                 'object that fits an empty page vs. 245); the continuation dataflow (next_object_id / more_follows / object count / header '
                 'packed after the objects / decode object loop); and the category id sets of the identity factory, constant-folded for every start id and both outcomes of the start-object-populated test.'
-                ' The identity store hands out and stores the configured objects unchanged; one known finding: all ModbusDeviceIdentification instances share one class-level object table.',
+                ' The identity store hands out and stores the configured objects unchanged; one known finding: all ModbusDeviceIdentification instances share one class-level object table.'
+                ' The identity constructor stores the configured objects themselves.',
         'note': 'Completeness and exactly-once over whole continuation chains for all identities are not decided. One known finding (245-byte object never fits).',
         'technique': 'constant/affine evaluation of the budget arithmetic + path-wise accounted-vs-emitted comparison + constant folding of id sets (static)',
     },
